@@ -345,7 +345,7 @@ def _work(idxs):
         rc = -999           # the assembler rejects the emitted text: isolate the probe(s) below
     if rc == 0:
         try:
-            P = asmx.Program(asm)
+            P = asmx.Program(asm, comm_zero=all(getattr(p, "comm_zero", False) for p in probes))
         except asmx.Unmodelled:
             P = None
     if P is not None:
@@ -358,7 +358,7 @@ def _work(idxs):
                 progs[p.key] = ("asm-unparsable", "the assembler rejects the emitted text", asm1)
             elif rc1 == 0:
                 try:
-                    progs[p.key] = asmx.Program(asm1)
+                    progs[p.key] = asmx.Program(asm1, comm_zero=getattr(p, "comm_zero", False))
                 except asmx.Unmodelled as ex:
                     progs[p.key] = ("asm-unparsable", str(ex), asm1)
             else:
